@@ -143,6 +143,10 @@ fn line_matches(text: &str, base: usize, l: &rustpython_parser_vendored::source_
     if usize::from(l.full_end()) != fe { return Some(format!("full_end {} != {}", usize::from(l.full_end()), fe)); }
     if l.as_str() != &text[r.0..r.1] { return Some(format!("as_str {:?} != {:?}", l.as_str(), &text[r.0..r.1])); }
     if l.as_full_str() != &text[r.0..r.2] { return Some(format!("as_full_str {:?} != {:?}", l.as_full_str(), &text[r.0..r.2])); }
+    // comparison and deref views of a line are its text without the terminator
+    let want = &text[r.0..r.1];
+    if !(*l == want) || !(want == *l) || &**l != want { return Some(format!("Line == &str / Deref disagree with as_str for {:?}", want)); }
+    if r.2 > r.1 && (*l == &text[r.0..r.2]) { return Some(format!("Line == its text with the terminator {:?}", &text[r.0..r.2])); }
     if (usize::from(l.range().start()), usize::from(l.range().end())) != (s, e) { return Some("range".into()); }
     if (usize::from(l.full_range().start()), usize::from(l.full_range().end())) != (s, fe) { return Some("full_range".into()); }
     if usize::from(l.full_text_len()) != r.2 - r.0 { return Some("full_text_len".into()); }
